@@ -296,7 +296,13 @@ class Gen(object):
             return ("call", "sort", [self.e_arr(d + 1), ("funclit", ["x", "y"], [("return", ("bin", "<=>", ("local", "y"), ("local", "x")))])])
         if k == "apply":
             self.labels.add("hof")
-            return ("call", "apply", [self.e_arr(d + 1), ("funclit", ["x"], [("return", ("bin", self.pick(["+", "*", "-"]), ("local", "x"), ("int", self.i(1, 3))))])])
+            other = ("int", self.i(1, 3))
+            outer = [n for n in self.visible("int", True) if n not in ("x", "y", "acc")]
+            if outer and self.chance(50):
+                # function literals can read the locals of their enclosing scope
+                self.labels.add("funclit-reads-enclosing-local")
+                other = ("local", self.pick(outer))
+            return ("call", "apply", [self.e_arr(d + 1), ("funclit", ["x"], [("return", ("bin", self.pick(["+", "*", "-"]), ("local", "x"), other))])])
         if k == "select":
             self.labels.add("hof")
             return ("call", "select", [self.e_arr(d + 1), ("funclit", ["x"], [("return", ("bin", self.pick([">", "<=", "!="]), ("local", "x"), ("int", self.i(0, 5))))])])
